@@ -3,6 +3,7 @@ package rules
 // Rules added after seeding round 7 (two-site changes and feature additions).
 
 import (
+	"fmt"
 	"go/ast"
 	"go/token"
 	"go/types"
@@ -10,6 +11,7 @@ import (
 	"strings"
 
 	"npverif/internal/core"
+	"npverif/internal/facts"
 )
 
 // apiObjectParam returns the parameter of fd whose type is a pointer to a named struct declared outside the module
@@ -137,6 +139,9 @@ func identityDefaults(p *core.Program, fd *core.FuncDecl, obj *types.Var, depth 
 						if c := identityComponent(info, rhs, obj); c != "" {
 							derived[lobj] = c
 							comp = c
+						} else if rid, isID := rhs.(*ast.Ident); isID && derived[info.ObjectOf(rid)] != "" {
+							derived[lobj] = derived[info.ObjectOf(rid)] // a copy of a local that names the component
+							comp = derived[lobj]
 						} else if call, ok := rhs.(*ast.CallExpr); ok {
 							if c, ks := helperConsts(call); c != "" {
 								derived[lobj] = c
@@ -560,4 +565,572 @@ func SelectorsMatchObjectLabels(p *core.Program, r *core.Report, rule string) {
 	}
 	r.RuleCounts[rule] = n
 	r.Floor(rule, 5)
+}
+
+// AccumulatorsHandedBack is C07-acc-return (a general shape rule, armed for packages eval and eval/internal/k8s). A
+// function that takes a slice and hands back a slice of the same type that is, on some exit, built from the one it was
+// given (append(acc, ...), acc itself, a reslice) is an accumulator step: its caller continues with the result. Every
+// exit that can be a success (the error result is not known to be non-nil) must then hand back a value built from the
+// parameter: `return nil, err` on a path where err may be nil throws away what earlier steps collected - the selectors of
+// the earlier rules of a policy, and with them the exposure of the pods they name.
+func AccumulatorsHandedBack(p *core.Program, r *core.Report, rule string) {
+	n := 0
+	for _, pkg := range []string{core.PkgK8s, core.PkgEval} {
+		for _, fd := range p.FuncsIn(pkg) {
+			sig := fd.Obj.Type().(*types.Signature)
+			if sig.Results().Len() == 0 {
+				continue
+			}
+			rt := sig.Results().At(0).Type()
+			if _, isSlice := rt.Underlying().(*types.Slice); !isSlice {
+				continue
+			}
+			var acc *types.Var
+			for i := 0; i < sig.Params().Len(); i++ {
+				if types.Identical(sig.Params().At(i).Type(), rt) {
+					if acc != nil {
+						acc = nil
+						break
+					}
+					acc = sig.Params().At(i)
+				}
+			}
+			if acc == nil {
+				continue
+			}
+			info := fd.Pkg.TypesInfo
+			// locals that hold a value built from the accumulator
+			derived := map[types.Object]bool{acc: true}
+			var fromAcc func(e ast.Expr) bool
+			fromAcc = func(e ast.Expr) bool {
+				switch x := ast.Unparen(e).(type) {
+				case *ast.Ident:
+					return derived[info.ObjectOf(x)]
+				case *ast.SliceExpr:
+					return fromAcc(x.X)
+				case *ast.CallExpr:
+					if core.IsBuiltinCall(info, x, "append") && len(x.Args) > 0 {
+						return fromAcc(x.Args[0])
+					}
+					// a callee that is itself an accumulator step for this value
+					if fn := core.Callee(info, x); fn != nil && p.IsModuleFunc(fn) {
+						for _, a := range x.Args {
+							if types.Identical(info.TypeOf(a), rt) && fromAcc(a) {
+								return true
+							}
+						}
+					}
+				}
+				return false
+			}
+			for changed := true; changed; {
+				changed = false
+				ast.Inspect(fd.Decl.Body, func(nd ast.Node) bool {
+					if as, ok := nd.(*ast.AssignStmt); ok {
+						for i, l := range as.Lhs {
+							id, isID := ast.Unparen(l).(*ast.Ident)
+							if !isID {
+								continue
+							}
+							var rhs ast.Expr
+							if len(as.Rhs) == len(as.Lhs) {
+								rhs = as.Rhs[i]
+							} else if len(as.Rhs) == 1 && i == 0 {
+								rhs = as.Rhs[0]
+							}
+							if rhs != nil && fromAcc(rhs) && !derived[info.ObjectOf(id)] && types.Identical(info.TypeOf(id), rt) {
+								derived[info.ObjectOf(id)] = true
+								changed = true
+							}
+						}
+					}
+					return true
+				})
+			}
+			// is it an accumulator step at all? some return hands back a value built from the parameter (other than the bare parameter)
+			isStep := false
+			var rets []*ast.ReturnStmt
+			ast.Inspect(fd.Decl.Body, func(nd ast.Node) bool {
+				if _, isLit := nd.(*ast.FuncLit); isLit {
+					return false
+				}
+				if ret, ok := nd.(*ast.ReturnStmt); ok && len(ret.Results) == sig.Results().Len() {
+					rets = append(rets, ret)
+					if fromAcc(ret.Results[0]) {
+						if id, isID := ast.Unparen(ret.Results[0]).(*ast.Ident); !isID || info.ObjectOf(id) != acc {
+							isStep = true
+						}
+					}
+				}
+				return true
+			})
+			if !isStep {
+				continue
+			}
+			w := facts.NewWalker(info)
+			w.OnExit = func(st int, ret *ast.ReturnStmt, f facts.Formula) {
+				if w.FuncLitDepth > 0 || ret == nil || len(ret.Results) != sig.Results().Len() {
+					return
+				}
+				n++
+				c := fd.Key() + ": `return " + exprList(ret.Results) + "` hands back what was accumulated so far"
+				if fromAcc(ret.Results[0]) {
+					r.OK(rule, c, p.Pos(ret.Pos()), "built from the accumulator parameter")
+					return
+				}
+				if IsErrorReturn(p, w, fd.Obj, ret, f) {
+					r.OK(rule, c, p.Pos(ret.Pos()), "an error return: the caller stops")
+					return
+				}
+				r.Bad(rule, c, p.Pos(ret.Pos()), "an exit that can be a success hands back a value that is not built from the accumulator "+acc.Name()+": what the earlier steps collected is thrown away (for the exposure pre-scan: the selectors of the earlier rules of the policy, so no representative peer is generated for them and their exposure is not reported)")
+			}
+			w.WalkBody(fd.Decl.Body, nil)
+			_ = rets
+		}
+	}
+	r.RuleCounts[rule] = n
+	r.Floor(rule, 0)
+}
+
+// FormattersKeepTheirInput is C09-readonly. A report value (the rows of a connection list, the four lists of a diff) can
+// be rendered more than once - ConnectionsListToString / ConnectivityDiffToString are library calls, and the accessors
+// of a diff hand out its lists - so rendering must leave it as it was. A function of the formatting layer that REWRITES
+// the elements of a slice parameter (the in-place filter `out := in[:0]; out = append(out, x)`, an element store
+// `in[i] = x`, copy(in, ...)), directly or through a callee, may only ever be handed a slice that was built for the
+// occasion: a call site that hands it a struct field, or the result of a function that returns a field or a parameter
+// as it is, lets one rendering destroy the rows of the next (the first output is right, every later one has lost or
+// duplicated rows). Sorting in place keeps the rows and is not a rewrite in this sense.
+func FormattersKeepTheirInput(p *core.Program, r *core.Report, rule string) {
+	fns := formatterFuncs(p)
+	inLayer := map[*types.Func]*core.FuncDecl{}
+	for _, fd := range fns {
+		inLayer[fd.Obj] = fd
+	}
+	isSlice := func(t types.Type) bool {
+		if t == nil {
+			return false
+		}
+		_, ok := t.Underlying().(*types.Slice)
+		return ok
+	}
+	// rewrites[fn][i]: parameter i of fn is rewritten in place (position of the witness)
+	rewrites := map[*types.Func]map[int]token.Pos{}
+	paramIndex := func(fd *core.FuncDecl) map[types.Object]int {
+		m := map[types.Object]int{}
+		sig := fd.Obj.Type().(*types.Signature)
+		for i := 0; i < sig.Params().Len(); i++ {
+			if isSlice(sig.Params().At(i).Type()) {
+				m[sig.Params().At(i)] = i
+			}
+		}
+		return m
+	}
+	mark := func(fn *types.Func, i int, at token.Pos) bool {
+		if rewrites[fn] == nil {
+			rewrites[fn] = map[int]token.Pos{}
+		}
+		if _, ok := rewrites[fn][i]; ok {
+			return false
+		}
+		rewrites[fn][i] = at
+		return true
+	}
+	for changed := true; changed; {
+		changed = false
+		for _, fd := range fns {
+			info := fd.Pkg.TypesInfo
+			pidx := paramIndex(fd)
+			if len(pidx) == 0 {
+				continue
+			}
+			// aliases: locals that share the backing array of a parameter (p, p[:k], alias of those)
+			alias := map[types.Object]int{}
+			for o, i := range pidx {
+				alias[o] = i
+			}
+			var root func(e ast.Expr) (int, bool)
+			root = func(e ast.Expr) (int, bool) {
+				switch x := ast.Unparen(e).(type) {
+				case *ast.Ident:
+					i, ok := alias[info.ObjectOf(x)]
+					return i, ok
+				case *ast.SliceExpr:
+					return root(x.X)
+				}
+				return 0, false
+			}
+			for grow := true; grow; {
+				grow = false
+				ast.Inspect(fd.Decl.Body, func(nd ast.Node) bool {
+					if as, ok := nd.(*ast.AssignStmt); ok && len(as.Lhs) == len(as.Rhs) {
+						for k, l := range as.Lhs {
+							id, isID := ast.Unparen(l).(*ast.Ident)
+							if !isID {
+								continue
+							}
+							// only a RESLICE (or plain copy of the header) keeps the array; append(x, ...) is handled below
+							if _, isSl := ast.Unparen(as.Rhs[k]).(*ast.SliceExpr); isSl {
+								if i, ok := root(as.Rhs[k]); ok {
+									if _, seen := alias[info.ObjectOf(id)]; !seen {
+										alias[info.ObjectOf(id)] = i
+										grow = true
+									}
+								}
+							}
+						}
+					}
+					return true
+				})
+			}
+			resliced := func(e ast.Expr) (int, bool) { // a value that is a reslice of a parameter (not the bare parameter)
+				switch x := ast.Unparen(e).(type) {
+				case *ast.SliceExpr:
+					return root(x.X)
+				case *ast.Ident:
+					if _, isParam := pidx[info.ObjectOf(x)]; isParam {
+						return 0, false
+					}
+					i, ok := alias[info.ObjectOf(x)]
+					return i, ok
+				}
+				return 0, false
+			}
+			ast.Inspect(fd.Decl.Body, func(nd ast.Node) bool {
+				switch x := nd.(type) {
+				case *ast.AssignStmt:
+					for _, l := range x.Lhs {
+						if ix, ok := ast.Unparen(l).(*ast.IndexExpr); ok && isSlice(info.TypeOf(ix.X)) {
+							if i, ok := root(ix.X); ok && mark(fd.Obj, i, x.Pos()) {
+								changed = true
+							}
+						}
+					}
+				case *ast.CallExpr:
+					if core.IsBuiltinCall(info, x, "append") && len(x.Args) > 0 {
+						if i, ok := resliced(x.Args[0]); ok && mark(fd.Obj, i, x.Pos()) {
+							changed = true
+						}
+					}
+					if core.IsBuiltinCall(info, x, "copy") && len(x.Args) == 2 {
+						if i, ok := root(x.Args[0]); ok && mark(fd.Obj, i, x.Pos()) {
+							changed = true
+						}
+					}
+					if fn := core.Callee(info, x); fn != nil && rewrites[fn] != nil {
+						for ai, a := range x.Args {
+							if _, rw := rewrites[fn][ai]; rw {
+								if i, ok := root(a); ok && mark(fd.Obj, i, x.Pos()) {
+									changed = true
+								}
+							}
+						}
+					}
+				}
+				return true
+			})
+		}
+	}
+	// freshness of what a function returns: every returned slice is a local built in the function (make / literal / nil
+	// grown by append), never a field or a parameter
+	var returnsFresh func(fn *types.Func, depth int) bool
+	returnsFresh = func(fn *types.Func, depth int) bool {
+		fd := p.ByObj[fn]
+		if fd == nil && depth <= 2 {
+			// a method of an interface: every implementation of the module
+			impls := 0
+			for _, g := range p.Impls(fn) {
+				if g == fn || p.ByObj[g] == nil {
+					continue
+				}
+				impls++
+				if !returnsFresh(g, depth+1) {
+					return false
+				}
+			}
+			return impls > 0
+		}
+		if fd == nil || depth > 2 {
+			return false
+		}
+		info := fd.Pkg.TypesInfo
+		fresh := true
+		ast.Inspect(fd.Decl.Body, func(nd ast.Node) bool {
+			if _, isLit := nd.(*ast.FuncLit); isLit {
+				return false
+			}
+			ret, ok := nd.(*ast.ReturnStmt)
+			if !ok {
+				return true
+			}
+			for _, res := range ret.Results {
+				if !isSlice(info.TypeOf(res)) {
+					continue
+				}
+				switch x := ast.Unparen(res).(type) {
+				case *ast.Ident:
+					v, isVar := info.ObjectOf(x).(*types.Var)
+					if !isVar || v.IsField() {
+						fresh = false
+						break
+					}
+					sig := fn.Type().(*types.Signature)
+					for i := 0; i < sig.Params().Len(); i++ {
+						if sig.Params().At(i) == v {
+							fresh = false
+						}
+					}
+					if v.Parent() == v.Pkg().Scope() {
+						fresh = false
+					}
+				case *ast.CallExpr:
+					if core.IsBuiltinCall(info, x, "make") || core.IsBuiltinCall(info, x, "append") {
+						break
+					}
+					if g := core.Callee(info, x); g == nil || !returnsFresh(g, depth+1) {
+						fresh = false
+					}
+				case *ast.CompositeLit:
+				default:
+					fresh = false
+				}
+			}
+			return true
+		})
+		return fresh
+	}
+	n := 0
+	for _, fd := range fns {
+		info := fd.Pkg.TypesInfo
+		pidx := paramIndex(fd)
+		ast.Inspect(fd.Decl.Body, func(nd ast.Node) bool {
+			c, ok := nd.(*ast.CallExpr)
+			if !ok {
+				return true
+			}
+			fn := core.Callee(info, c)
+			if fn == nil || rewrites[fn] == nil {
+				return true
+			}
+			for ai, a := range c.Args {
+				if _, rw := rewrites[fn][ai]; !rw {
+					continue
+				}
+				n++
+				construct := fd.Key() + ": " + core.RefName(fn) + " rewrites its slice argument #" + fmt.Sprint(ai) + " in place and is handed a slice built for the occasion"
+				x := ast.Unparen(ResolveLocal(info, fd.Decl.Body, a))
+				bad := ""
+				switch y := x.(type) {
+				case *ast.Ident:
+					if _, isParam := pidx[info.ObjectOf(y)]; isParam {
+						continue // the caller's own parameter: judged at ITS call sites (it is marked as rewriting too)
+					}
+					if v, isVar := info.ObjectOf(y).(*types.Var); isVar && v.Pkg() != nil && v.Parent() == v.Pkg().Scope() {
+						bad = "a package variable"
+					}
+				case *ast.SelectorExpr:
+					if core.FieldOf(info, y) != nil {
+						bad = "the field " + core.ExprStr(y)
+					}
+				case *ast.CallExpr:
+					if core.IsBuiltinCall(info, y, "make") || core.IsBuiltinCall(info, y, "append") {
+						break
+					}
+					if g := core.Callee(info, y); g == nil || !returnsFresh(g, 0) {
+						bad = "the result of " + core.ExprStr(y.Fun) + ", which can hand out a field or a parameter as it is"
+					}
+				}
+				r.Check(bad == "", rule, construct, p.Pos(c.Pos()), "a fresh slice",
+					core.RefName(fn)+" rewrites the elements of the slice it is given (witness at "+p.Pos(rewrites[fn][ai])+") and is handed "+bad+": rendering a report rewrites the report itself, so the first output is right and every later rendering (another format, the accessors of the diff) has lost or duplicated rows")
+			}
+			return true
+		})
+	}
+	// an entry of the layer must not rewrite what the API user hands in
+	for _, fd := range fns {
+		if !fd.Obj.Exported() || rewrites[fd.Obj] == nil {
+			continue
+		}
+		for i, at := range rewrites[fd.Obj] {
+			n++
+			r.Bad(rule, fd.Key()+": an exported rendering function leaves the slice it is given as it was", p.Pos(at), fmt.Sprintf("parameter #%d of an exported function of the formatting layer is rewritten in place: the caller's report is changed by rendering it", i))
+		}
+	}
+	r.RuleCounts[rule] = n
+	r.Extra[rule+"_functions_in_layer"] = len(fns)
+	r.RuleCounts[rule+"-fns"] = len(fns)
+	r.Floor(rule+"-fns", 30)
+	r.Floor(rule, 0)
+}
+
+// splitFormMatchesLayout decides the split-and-compare form of the owner scan (C15-inv-match) against the layout of the
+// cache key: `fields := strings.Split(cacheKey, SEP)`, removal under a disjunction of
+// `strings.Join(fields[a:b], SEP) == ownerKey`. It agrees with the layout iff (1) SEP is the separator getPodOwnerKey
+// joins with, (2) the compared groups include [0:n] and [n:2n], n being the number of parts of an owner key, and (3) no
+// part of an owner key can contain the separator: namespace and owner name are Kubernetes names (assumption), the label
+// variant must come out of an encoder whose alphabet excludes the separator (hex). Returns (reason, true) when it agrees,
+// (reason, false) when the form is recognised but disagrees, ("", false) when it is not this form at all.
+func splitFormMatchesLayout(p *core.Program, m *core.FuncDecl, rs *ast.RangeStmt, rc *ast.CallExpr) (string, bool) {
+	info := m.Pkg.TypesInfo
+	loopVar, _ := rs.Value.(*ast.Ident)
+	if loopVar == nil {
+		return "", false
+	}
+	var guard *ast.IfStmt
+	ast.Inspect(rs.Body, func(nd ast.Node) bool {
+		if ifs, ok := nd.(*ast.IfStmt); ok && ifs.Body.Pos() <= rc.Pos() && rc.End() <= ifs.Body.End() {
+			guard = ifs
+		}
+		return true
+	})
+	if guard == nil {
+		return "", false
+	}
+	constText := func(ti *types.Info, scope ast.Node, e ast.Expr) (string, bool) {
+		e = ast.Unparen(ResolveLocal(ti, scope, e))
+		if c, ok := e.(*ast.CallExpr); ok && core.IsConversion(ti, c) && len(c.Args) == 1 {
+			e = ast.Unparen(c.Args[0])
+		}
+		if tv, ok := ti.Types[e]; ok && tv.Value != nil {
+			return tv.Value.ExactString(), true
+		}
+		return "", false
+	}
+	isStrings := func(ti *types.Info, c *ast.CallExpr, name string) bool {
+		fn := core.Callee(ti, c)
+		return fn != nil && fn.Pkg() != nil && fn.Pkg().Path() == "strings" && fn.Name() == name
+	}
+	type group struct{ lo, hi int64 }
+	var groups []group
+	sepUsed := ""
+	recognised := true
+	recv := m.Obj.Type().(*types.Signature).Recv()
+	var disj func(e ast.Expr)
+	disj = func(e ast.Expr) {
+		be, ok := ast.Unparen(e).(*ast.BinaryExpr)
+		if !ok {
+			recognised = false
+			return
+		}
+		if be.Op == token.LOR {
+			disj(be.X)
+			disj(be.Y)
+			return
+		}
+		if be.Op != token.EQL {
+			recognised = false
+			return
+		}
+		for _, side := range [][2]ast.Expr{{be.X, be.Y}, {be.Y, be.X}} {
+			j, ok := ast.Unparen(ResolveLocal(info, m.Decl.Body, side[0])).(*ast.CallExpr)
+			if !ok || !isStrings(info, j, "Join") || len(j.Args) != 2 {
+				continue
+			}
+			sl, ok := ast.Unparen(j.Args[0]).(*ast.SliceExpr)
+			if !ok {
+				continue
+			}
+			sp, ok := ast.Unparen(ResolveLocal(info, m.Decl.Body, sl.X)).(*ast.CallExpr)
+			if !ok || !isStrings(info, sp, "Split") || len(sp.Args) != 2 {
+				continue
+			}
+			if id, isID := ast.Unparen(sp.Args[0]).(*ast.Ident); !isID || info.ObjectOf(id) != info.ObjectOf(loopVar) {
+				continue
+			}
+			s1, ok1 := constText(info, m.Decl.Body, j.Args[1])
+			s2, ok2 := constText(info, m.Decl.Body, sp.Args[1])
+			if !ok1 || !ok2 || s1 != s2 {
+				continue
+			}
+			var lo, hi int64 = 0, -1
+			good := true
+			if sl.Low != nil {
+				if v, isC := constInt64(info, sl.Low); isC {
+					lo = v
+				} else {
+					good = false
+				}
+			}
+			if sl.High != nil {
+				if v, isC := constInt64(info, sl.High); isC {
+					hi = v
+				} else {
+					good = false
+				}
+			}
+			if !good {
+				continue
+			}
+			if id, isID := ast.Unparen(ResolveLocal(info, m.Decl.Body, side[1])).(*ast.Ident); isID {
+				if v, isVar := info.ObjectOf(id).(*types.Var); isVar && isParamOrRecv(m, info, id) && v != recv {
+					sepUsed = s1
+					groups = append(groups, group{lo, hi})
+					return
+				}
+			}
+		}
+		recognised = false
+	}
+	disj(guard.Cond)
+	if !recognised || len(groups) == 0 {
+		return "", false
+	}
+	ok := p.Func(core.PkgEval, "", "getPodOwnerKey")
+	if ok == nil {
+		return "getPodOwnerKey not found", false
+	}
+	var nParts int64
+	sepKey := ""
+	oinfo := ok.Pkg.TypesInfo
+	ast.Inspect(ok.Decl.Body, func(nd ast.Node) bool {
+		if c, isC := nd.(*ast.CallExpr); isC && len(c.Args) == 2 && isStrings(oinfo, c, "Join") {
+			if cl, isCL := ast.Unparen(c.Args[0]).(*ast.CompositeLit); isCL {
+				nParts = int64(len(cl.Elts))
+			}
+			if t, has := constText(oinfo, ok.Decl.Body, c.Args[1]); has {
+				sepKey = t
+			}
+		}
+		return true
+	})
+	if nParts == 0 || sepKey == "" {
+		return "the owner key is not a strings.Join of a literal list with a constant separator", false
+	}
+	if sepUsed != sepKey {
+		return "the key is split at " + sepUsed + " but joined with " + sepKey, false
+	}
+	have := map[group]bool{}
+	for _, g := range groups {
+		have[g] = true
+	}
+	if !have[group{0, nParts}] || !have[group{nParts, 2 * nParts}] {
+		return fmt.Sprintf("the compared field groups %v do not include the source owner key [0:%d] and the destination owner key [%d:%d]", groups, nParts, nParts, 2*nParts), false
+	}
+	vf := p.Func(core.PkgK8s, "", "variantFromLabelsMap")
+	if vf == nil {
+		return "variantFromLabelsMap not found", false
+	}
+	vinfo := vf.Pkg.TypesInfo
+	sepFree := true
+	nRet := 0
+	ast.Inspect(vf.Decl.Body, func(nd ast.Node) bool {
+		ret, isRet := nd.(*ast.ReturnStmt)
+		if !isRet || len(ret.Results) != 1 {
+			return true
+		}
+		nRet++
+		c, isC := ast.Unparen(ResolveLocal(vinfo, vf.Decl.Body, ret.Results[0])).(*ast.CallExpr)
+		if !isC {
+			sepFree = false
+			return true
+		}
+		fn := core.Callee(vinfo, c)
+		if fn == nil || fn.Pkg() == nil || !(fn.Pkg().Path() == "encoding/hex" && fn.Name() == "EncodeToString") {
+			sepFree = false
+		}
+		return true
+	})
+	if !sepFree || nRet == 0 {
+		return "the label variant of an owner key is not produced by a hex encoder, so it may contain the separator (a label key with a prefix does): the fields of the split key shift and no entry of that owner is ever found", false
+	}
+	return fmt.Sprintf("split at the key's separator and compared with the owner key as a whole on the field groups [0:%d] and [%d:%d]; the variant is hex text, namespace and owner name are Kubernetes names (no separator)", nParts, nParts, 2*nParts), true
 }
